@@ -42,6 +42,12 @@ def run(c):
         c.spec_violation(st, "a rewrite is not meaning preserving in the specification (its guard is wrong)")
         return
     replay(c, st["out"], "enum-%d" % size)
+    # every arithmetic tree (grouped operands inside chains of every operator family), rendered with redundant parentheses
+    for nodes, lits in ((7, {3}),) if c.quick else ((7, {2, 3}), (9, {3})):
+        sa = vf.tlc_generate("MC_Arith", vf.cfg_consts(MaxSize=nodes, FreeVars=0, MaxIdx=0, Formers={"lit", "bin"}, Ops={"sum", "diff", "prod", "quot"}, Lits=lits) +
+                             "INIT BInit\nNEXT BNext\nINVARIANT Emit\nCHECK_DEADLOCK FALSE\n", "arith-%d-%d" % (nodes, len(lits)), timeout=6000, workers=14)
+        c.add_tlc(sa, "all arithmetic trees <= %d nodes; generation" % nodes)
+        replay(c, sa["out"], "arith-%d-%d" % (nodes, len(lits)))
     # larger hosts
     d = os.path.join(vf.WORK, "rewrite")
     progs, hosts = os.path.join(d, "progs.jsonl"), os.path.join(d, "hosts.ndjson")
